@@ -107,7 +107,7 @@ func cmdVerify(args []string) int {
 		os.MkdirAll(dir, 0o755)
 	}
 	t1 := time.Now()
-	x.solveAll(x.obls, dir, *timeout, false, 16)
+	x.obls = x.solveAllSplit(x.obls, dir, *timeout, false, 16)
 	fmt.Fprintf(os.Stderr, "symex %.1fs, solving %.1fs, %d obligations\n", t1.Sub(t0).Seconds(), time.Since(t1).Seconds(), len(x.obls))
 	bad := 0
 	for _, o := range x.obls {
